@@ -5,8 +5,9 @@
     [counter_mod] (regenerated from the source) --[apply_all]--> [state].
     [order]/[order'] are the two HashMap iteration orders (of the file's cluster
     table and of [Config.clusters]); every theorem holds for all of them.  Since
-    the fixes b1489f3/58bb4e6 in /repo the loader itself rejects duplicate
-    frontends and backends, so no side condition on the declaration remains. *)
+    the fixes b1489f3/58bb4e6/88dc093 in /repo the loader itself rejects duplicate
+    frontends and backends and a TCP/UDP address claimed by two clusters, so no
+    side condition on the declaration remains. *)
 From Coq Require Import List ZArith NArith String Bool Lia Permutation.
 From SV Require Import Common.Tok C20.Gen C20.Model C20.Proofs C20.LoadProofs C20.InvProofs.
 Import ListNotations.
@@ -15,7 +16,8 @@ Open Scope Z_scope.
 (** ** 0. the loader invariant *)
 
 (** every key the state uses is unique in an accepted file: listener (protocol, address), cluster id,
-    HTTP(S) route, TCP/UDP frontend, backend (cluster, id, address); health checks are valid *)
+    HTTP(S) route, TCP/UDP frontend, backend (cluster, id, address); health checks are valid;
+    a TCP/UDP address belongs to one cluster *)
 Theorem loader_enforces_distinct_keys : forall d order cf,
   Permutation order (d_clusters d) -> load_in d order = Ok cf -> KeysOk cf (cf_clusters cf).
 Proof. exact load_in_KeysOk. Qed.
@@ -25,6 +27,27 @@ Proof. exact load_in_KeysOk. Qed.
 Theorem frontends_have_listeners : forall d order cf,
   load_in d order = Ok cf -> fronts_on_listeners cf.
 Proof. exact load_in_fronts_on_listeners. Qed.
+
+(** a TCP/UDP address of an accepted file carries the frontends of one cluster only (since the
+    fix 88dc093 in /repo the loader refuses a second cluster on such an address) ... *)
+Theorem stream_address_one_cluster : forall d order cf,
+  Permutation order (d_clusters d) -> load_in d order = Ok cf ->
+  forall a b, In a (flat_map cc_tfronts (cf_clusters cf)) -> In b (flat_map cc_tfronts (cf_clusters cf)) ->
+  t_addr a = t_addr b -> t_cluster a = t_cluster b.
+Proof. intros d order cf P H. exact (proj2 (proj2 (proj2 (proj2 (proj2 (proj2 (load_in_KeysOk _ _ _ P H))))))). Qed.
+
+(** ... so the guard of [ConfigState::add_tcp_frontend] / [add_udp_frontend] (an address bound to
+    another cluster, 6f92064 in /repo) cannot fire on a request the file generates, whatever
+    part of the file's frontends the state already holds *)
+Theorem state_guard_silent : forall d order cf,
+  Permutation order (d_clusters d) -> load_in d order = Ok cf ->
+  forall t held, In t (flat_map cc_tfronts (cf_clusters cf)) -> incl held (flat_map cc_tfronts (cf_clusters cf)) ->
+  bound_elsewhere t held = false.
+Proof.
+  intros d order cf P H t held Ht Hh. apply bound_elsewhere_false.
+  eapply OneOwner_incl; [|exact (stream_address_one_cluster _ _ _ P H)].
+  intros x Hx. apply in_app_or in Hx as [Hx|[Hx|[]]]; [now apply Hh|now subst].
+Qed.
 
 (** ** 1. the generated commands are accepted in full by a fresh instance and the
        resulting state is exactly the configuration, for any number of entries *)
